@@ -11,7 +11,7 @@
    step); several instances may carry the same Jenkins variant id.
    Python sets are lists read as sets; dicts are association lists.  Object
    references to AbstractJob are job ids into a store. *)
-From Coq Require Import List NArith Bool Arith.
+From Coq Require Import List NArith Bool Arith Relations.
 Require Import BobV.Gen.ConstsC20.
 Import ListNotations.
 
@@ -805,59 +805,124 @@ Definition run (prefix : str) (short : bool) (g : graph) (roots sroots : list na
       end
   end.
 
+(* constructor with N indices, used for literals written by the harness *)
+Definition mkS (k : kind) (vid : N) (pkgstep stack : N) (name recipe : str) (iso valid : bool)
+               (args tools : list N) (sbx : option N) : step :=
+  mkStep k vid (N.to_nat pkgstep) stack name recipe iso valid (map N.to_nat args) (map N.to_nat tools)
+         (match sbx with Some x => Some (N.to_nat x) | None => None end).
+
 (* ------------------------------------------------------------------ well-formed inputs *)
 (* What the harness guarantees about the extracted graph (and re-checks by evaluation):
-   dependencies have smaller indices; package steps carry even ids, other steps odd ones
-   (distinct hash values); a non-package dependency belongs to the same package; the interned
-   variant ids of package dependencies are smaller than the one of the depending package. *)
-Definition wf_dep (g : graph) (i : nat) (s : step) (d : nat) : bool :=
+   [wf_shape]: dependencies have smaller indices (the instance graph is a DAG); package steps carry
+   even ids, other steps odd ones (distinct hash values); a checkout/build step belongs to exactly one
+   package and a non-package dependency belongs to the same package.
+   [wf] = [wf_shape] + the interned variant ids of the package dependencies of EVERY instance are
+   smaller than the id of the depending package, i.e. the variant graph over all instances is acyclic.
+   This second part fails exactly when instances of one variant depend on each other through different
+   sandboxes (finding F13). *)
+Definition wf_dep (ranked : bool) (g : graph) (i : nat) (s : step) (d : nat) : bool :=
   Nat.ltb d i &&
   match nth_error g d, nth_error g (s_pkgstep s) with
   | Some sd, Some ps =>
-      if is_pkg sd then N.ltb (s_vid sd) (s_vid ps) && Nat.eqb (s_pkgstep sd) d
+      if is_pkg sd then (negb ranked || N.ltb (s_vid sd) (s_vid ps)) && Nat.eqb (s_pkgstep sd) d
       else Nat.eqb (s_pkgstep sd) (s_pkgstep s)
   | _, _ => false
   end.
 
-Definition wf_step (g : graph) (i : nat) (s : step) : bool :=
+Definition wf_step (ranked : bool) (g : graph) (i : nat) (s : step) : bool :=
   Bool.eqb (is_pkg s) (N.even (s_vid s)) &&
   (if is_pkg s then Nat.eqb (s_pkgstep s) i else Nat.ltb i (s_pkgstep s)) &&
   match nth_error g (s_pkgstep s) with Some ps => is_pkg ps | None => false end &&
-  forallb (wf_dep g i s) (alldeps s).
+  forallb (wf_dep ranked g i s) (alldeps s).
 
-Fixpoint wf_from (g : graph) (i : nat) (l : list step) : bool :=
-  match l with [] => true | s :: r => wf_step g i s && wf_from g (S i) r end.
+Fixpoint wf_from (ranked : bool) (g : graph) (i : nat) (l : list step) : bool :=
+  match l with [] => true | s :: r => wf_step ranked g i s && wf_from ranked g (S i) r end.
 
-Definition wf (g : graph) : bool := wf_from g 0 g.
+Definition wf (g : graph) : bool := wf_from true g 0 g.
+Definition wf_shape (g : graph) : bool := wf_from false g 0 g.
 
 Definition wf_roots (g : graph) (roots : list nat) : bool :=
   forallb (fun r => match nth_error g r with Some s => is_pkg s | None => false end) roots.
 
-(* package steps reached from a step through non-package steps only: the direct package
-   dependencies as addStep sees them *)
-Fixpoint pkg_deps (fuel : nat) (g : graph) (sid : nat) : list nat :=
-  match fuel with
-  | O => []
-  | S f =>
-      match nth_error g sid with
-      | None => []
-      | Some s =>
-          flat_map (fun d => match nth_error g d with
-                             | Some sd => if is_pkg sd then [d] else pkg_deps f g d
-                             | None => []
-                             end) (alldeps s)
-      end
-  end.
+(* ------------------------------------------------------------------ specification vocabulary *)
+Definition sub (a b : vset) : Prop := forall x, In x a -> In x b.
 
-Definition dep_vids (g : graph) (sid : nat) : vset :=
-  map (fun d => match nth_error g d with Some sd => s_vid sd | None => 0%N end) (pkg_deps (S (length g)) g sid).
+Definition pk (st : sstate) (j : nat) : vset := a_pkgs (get_job st j).
+Definition pa (st : sstate) (j : nat) : vset := a_parents (get_job st j).
+Definition ch (st : sstate) (j : nat) : vset := a_childs (get_job st j).
+Definition jobof (st : sstate) (v : N) : option nat := lookupN v (st_v2j st).   (* vidToJob.get(v) *)
 
-(* instances of one variant have the same dependency variants (false for a package reached under
-   two inherited sandboxes; then only the reference instance is spanned and built) *)
-Definition consistent (g : graph) : bool :=
-  forallb (fun '(i, s) =>
-    forallb (fun '(k, t) =>
-       negb (is_pkg s && is_pkg t && N.eqb (s_vid s) (s_vid t)) ||
-       (subset (dep_vids g i) (dep_vids g k) && subset (dep_vids g k) (dep_vids g i)))
-      (combine (seq 0 (length g)) g))
-    (combine (seq 0 (length g)) g).
+(* an AbstractJob object that is still referenced by vidToJob *)
+Definition live (st : sstate) (j : nat) : Prop := exists v, jobof st v = Some j.
+
+(* the job graph as the algorithm records it: J -> K when a package of J is a parent of K *)
+Definition E (st : sstate) (J K : nat) : Prop :=
+  exists p, live st K /\ In p (pa st K) /\ jobof st p = Some J.
+
+(* "childs is closed under job level reachability": every job that has a package among the parents of K
+   contains the packages and childs of K in its childs *)
+Definition closed (st : sstate) : Prop :=
+  forall K p J, live st K -> In p (pa st K) -> jobof st p = Some J ->
+  sub (pk st K) (ch st J) /\ sub (ch st K) (ch st J).
+
+Record Inv (st : sstate) : Prop := {
+  inv_in : forall v j, jobof st v = Some j -> In v (pk st j);
+  inv_own : forall j v, live st j -> In v (pk st j) -> jobof st v = Some j;
+  inv_par : forall j p, live st j -> In p (pa st j) -> exists i, jobof st p = Some i;
+  inv_closed : closed st;
+  inv_acyclic : forall J, ~ clos_trans_1n nat (E st) J J
+}.
+
+(* the package steps a step stands for in addStep: itself if it is a package step, otherwise the
+   package steps reached through checkout/build steps *)
+Inductive target (g : graph) : nat -> nat -> Prop :=
+| tg_pkg d sd : nth_error g d = Some sd -> is_pkg sd = true -> target g d d
+| tg_via d sd e q : nth_error g d = Some sd -> is_pkg sd = false -> In e (alldeps sd) -> target g e q ->
+                    target g d q.
+
+(* Q is a direct package dependency (argument, tool or sandbox of the package, build or checkout step)
+   of the package instance P *)
+Definition pdep (g : graph) (P Q : nat) : Prop :=
+  exists sP e, nth_error g P = Some sP /\ is_pkg sP = true /\ In e (alldeps sP) /\ target g e Q.
+
+(* the dependencies of instance P are recorded for variant k: each is known and has k among its parents *)
+Definition covered (g : graph) (st : sstate) (k : N) (P : nat) : Prop :=
+  forall Q sQ, pdep g P Q -> nth_error g Q = Some sQ ->
+  exists jq, jobof st (s_vid sQ) = Some jq /\ In k (pa st jq).
+
+(* the reference instance of variant k, its name and its dependencies *)
+Definition cov_entry (g : graph) (st : sstate) (k : N) : Prop :=
+  exists P sP, lookupN k (st_ref st) = Some P /\ nth_error g P = Some sP /\ is_pkg sP = true /\
+               s_vid sP = k /\ lookupN k (st_v2n st) = Some (s_name sP) /\ covered g st k P.
+
+Definition Cover (g : graph) (st : sstate) : Prop :=
+  forall k j, jobof st k = Some j -> cov_entry g st k.
+
+(* job J depends on job K: the reference instance of a package of J has a direct package dependency
+   (argument, tool or sandbox of its package, build or checkout step) that is built by K *)
+Definition jdep (g : graph) (st : sstate) (J K : nat) : Prop :=
+  exists k P Q sQ, jobof st k = Some J /\ lookupN k (st_ref st) = Some P /\ pdep g P Q /\
+                   nth_error g Q = Some sQ /\ jobof st (s_vid sQ) = Some K.
+
+(* the variants that have to be built: the roots and, transitively, the direct package dependencies of the
+   reference instances *)
+Inductive needed (g : graph) (st : sstate) (roots : list nat) : N -> Prop :=
+| nd_root r s : In r roots -> nth_error g r = Some s -> needed g st roots (s_vid s)
+| nd_dep k P Q sQ : needed g st roots k -> lookupN k (st_ref st) = Some P -> pdep g P Q ->
+                    nth_error g Q = Some sQ -> needed g st roots (s_vid sQ).
+
+(* all instances of one variant have the same dependency variants *)
+Definition consistent_deps (g : graph) : Prop :=
+  forall P P' sP sP' Q sQ, nth_error g P = Some sP -> nth_error g P' = Some sP' ->
+  is_pkg sP = true -> is_pkg sP' = true -> s_vid sP = s_vid sP' ->
+  pdep g P Q -> nth_error g Q = Some sQ ->
+  exists Q' sQ', pdep g P' Q' /\ nth_error g Q' = Some sQ' /\ s_vid sQ' = s_vid sQ.
+
+(* the package instances reachable from the roots *)
+Inductive reachable (g : graph) (roots : list nat) : nat -> Prop :=
+| rc_root r : In r roots -> reachable g roots r
+| rc_dep P Q : reachable g roots P -> pdep g P Q -> reachable g roots Q.
+
+(* v is built by exactly one abstract job *)
+Definition in_exactly_one_job (st : sstate) (v : N) : Prop :=
+  exists J, live st J /\ In v (pk st J) /\ forall K, live st K -> In v (pk st K) -> K = J.
